@@ -251,7 +251,7 @@ def _c11(tier, seed):
 
 def _c16(tier, seed):
     q = tier == "quick"
-    runs = ["H_C16_message(%d,%d)" % (k, w) for k in range(19) for w in ((1,) if q else (0, 1))] + ["H_C16_repeated()", "H_C16_reconnect()"]
+    runs = ["H_C16_message(%d,%d)" % (k, w) for k in range(19) for w in ((1,) if q else (0, 1))] + ["H_C16_repeated()", "H_C16_reconnect()"] + ["H_C16_names_client_message(%d)" % k for k in range(8)]
     return [dict(name="loop", pkg=".", harness=NET_HARNESS + ["harness/root/c16.go"], runs=runs, solver="z3", walllimit=600, timeout=3000, replay="schedule",
                  crash_tags=["process-survives"], validate_runs=["H_C16_message(0,1)", "H_C16_message(2,1)", "H_C16_message(9,1)"], veclen=100)]
 
@@ -346,9 +346,9 @@ PROPS = {
     ),
     "C16": dict(
         jobs=_c16,
-        bounds={"quick": "one server message of each of 19 kinds (rpc_result / bad_server_salt / container truncated at every cut, pong, msgs_ack, new_session_created, bad_msg_notification, rpc_result for an unknown request, unregistered constructor, truncated body at every cut, empty and nested containers, unexpected objects, empty body, bare Bool/vector) with symbolic fields and odd/even seq_no, delivered to the library's own receive loop (startReadingResponses over a fake transport) with a consumer on the Warnings channel; a repeated rpc_result; orderly close (io.EOF) followed by reconnection through a hooked transport factory; each followed by a probe request that must complete",
+        bounds={"quick": "one server message of each of 19 kinds (rpc_result / bad_server_salt / container truncated at every cut, pong, msgs_ack, new_session_created, bad_msg_notification, rpc_result for an unknown request, unregistered constructor, truncated body at every cut, empty and nested containers, unexpected objects, empty body, bare Bool/vector) with symbolic fields and odd/even seq_no, delivered to the library's own receive loop (startReadingResponses over a fake transport) with a consumer on the Warnings channel; a repeated rpc_result; after one answered and acknowledged request, a message of each of 8 kinds (bad_server_salt, rpc_result, rpc_result/rpc_error, bad_msg_notification, msgs_ack, pong, msg_detailed_info, msgs_state_info) naming the msg_id of the answered request or of the client's own acknowledgement (symbolic choice); orderly close (io.EOF) followed by reconnection through a hooked transport factory; each followed by a probe request that must complete",
                 "thorough": "also without a Warnings consumer"},
-        outside="sequences of several such messages (each run is one step from the idle state); real sockets and process exit codes; gzip-packed traffic (C15 decodes it)",
+        outside="longer sequences of such messages (each run is one step from the idle state or from the state after one answered request); real sockets and process exit codes; gzip-packed traffic (C15 decodes it)",
         assumptions=["a panic escaping any goroutine is process death", "transport.NewTransport hooked inside the engine for the reconnect scenario (not replayable natively)"],
     ),
     "C10": dict(
